@@ -90,7 +90,9 @@ def make_case(cid, rnd, q):
     need = max(per_group + [1])
     fits = [m for m in (16, 64, 256, 1024) if m >= need]
     # mostly a capacity that fits, sometimes exactly too small
-    if fits and rnd.random() < 0.85:
+    if fits and groups > 1 and rnd.random() < 0.12:
+        max_pdi = 16384         # a large declared capacity: the next group starts that much further on
+    elif fits and rnd.random() < 0.85:
         max_pdi = rnd.choice(fits[:2])
     else:
         smaller = [m for m in (16, 64, 256, 1024) if m < need]
